@@ -193,6 +193,19 @@ def fresh_value_scenarios():
     out.append(("fn mk() { { let x = 1; return fn() { let y = x; let x = 10; x + y }; } } push(__o, mk()());", ["11"]))
     out.append(("fn mk() { { { let v = 7; return fn(k) { let w = v + k; let v = 100; [w, v] }; } } } push(__o, mk()(1));", ["[8, 100]"]))
     out.append(("fn d(a, z) { a / z } push(__o, d(7.5, 2)); push(__o, d(9, 2));", ["3.75f", "4"]))
+    # literals are evaluated afresh each time: a function or a loop body that returns an array / map literal of any size
+    # hands out a new object on every evaluation
+    for n in (0, 1, 5, 31, 32, 33, 64, 100, 300):
+        elems = ", ".join(str(i % 7) for i in range(n))
+        out.append(("fn mk() { [%s] } let a = mk(); push(a, 99); %s let b = mk(); push(__o, len(a)); push(__o, len(b)); push(__o, len(mk()));%s"
+                    % (elems, "a[0] = 77;" if n else "", " push(__o, b[0]); push(__o, mk()[0]);" if n else ""),
+                    [str(n + 1), str(n), str(n)] + (["0", "0"] if n else [])))
+        out.append(("let rs = []; let i = 0; while i < 3 { let t = [%s]; push(t, i); push(rs, t); i = i + 1; } push(__o, len(rs[0])); push(__o, len(rs[2])); push(__o, rs[0][%d]); push(__o, rs[2][%d]);"
+                    % (elems, n, n), [str(n + 1), str(n + 1), "0", "2"]))
+    for n in (0, 1, 8, 32, 40):
+        pairs = ", ".join("%d: %d" % (i, i * 2) for i in range(n))
+        out.append(("fn mk() { map {%s} } let a = mk(); insert(a, 1000, 1); let b = mk(); push(__o, len(a)); push(__o, len(b)); push(__o, len(mk()));" % pairs, [str(n + 1), str(n), str(n)]))
+    out.append(("fn mk() { [\"a\", \"b\", 'c', 1.5, true, byte(1), 3, 3, 3, 3, 3, 3, 3, 3, 3, 3, 3, 3, 3, 3, 3, 3, 3, 3, 3, 3, 3, 3, 3, 3, 3, 3, 3, 3] } let a = mk(); a[0] = \"z\"; push(__o, mk()[0]); push(__o, a[0]);", ["\"a\"", "\"z\""]))
     out.append(("let s = \"ab\"; let t = s + \"\"; let u = \"\" + s; push(__o, t == s); push(__o, u); push(__o, s * 1);", ["true", "\"ab\"", "\"ab\""]))
     CP = "fn cp(x) { let c = []; let i = 0; while i < len(x) { push(c, x[i]); i = i + 1; } c } "
     return [(CP + t, e) for t, e in out]
